@@ -1145,4 +1145,122 @@ class ProjectImportFrom(Contract):
                                  and all(v is None for x, v in flat.items() if x not in want and x != "other")), note=repr(flat)[:300])
 
 
-CONTRACTS += [PrepareImport(), ImportIntoProject(), ProjectImportFrom()]
+# ============================================================================= the three exporters: what their copy function does with (src, dst)
+
+
+class SWalkZ(Sym):
+    def sym_iter(self, ex):
+        def at(interp, i):
+            interp.ctx.ghost["z_step"] = i
+            return (STokI("root", i), "dirnames", SFilesZ(i))
+        return CutSeq(z3.Int("zw_n"), at, label="walk")
+
+
+class SFilesZ(Sym):
+    def __init__(self, i):
+        self.i = i
+
+    def sym_iter(self, ex):
+        def at(interp, j):
+            interp.ctx.ghost["z_writes"] = []
+            return STokI("file", self.i, j)
+        return CutSeq(z3.Int(ex.fresh_name("zf_n")), at, label="filenames")
+
+
+class STokI(Sym):
+    """an indexed token (root of walk step i, file j of step i): identity is the index tuple"""
+
+    def __init__(self, kind, *idx):
+        self.kind, self.idx = kind, idx
+
+    def same(self, other):
+        return isinstance(other, STokI) and self.kind == other.kind and len(self.idx) == len(other.idx) and all(z3.eq(z3.simplify(a), z3.simplify(b)) for a, b in zip(self.idx, other.idx))
+
+
+class Exporters(Contract):
+    properties = ("C16",)
+
+    def __init__(self, which):
+        self.which = which
+        self.target = f"{IE}.export_to_{which}"
+        super().__init__()
+
+    def cases(self):
+        return [{"copytree": c} for c in ((False, True) if self.which == "directory" else (False,))]
+
+    def make_ctx(self, case):
+        import shutil
+        ctx = super().make_ctx(case)
+        g = ctx.ghost
+        g["ev"] = []
+        ctx.callee_contracts[f"{IE}._export_jobs"] = lambda interp, b: (g.__setitem__("ej", dict(b)), STok("pairs"))[1]
+        ctx.callee_contracts["signac._utility._mkdir_p"] = lambda interp, b: g["ev"].append(("mkdir_p", b["path"]))
+        ctx.externals[os.path.join] = lambda interp, *a: ("join",) + a
+        ctx.externals[os.path.normpath] = lambda interp, a: ("normpath", a)
+        ctx.externals[os.path.dirname] = lambda interp, a: ("dirname", a)
+        ctx.externals[os.path.relpath] = lambda interp, a, b: ("relpath", a, b)
+        ctx.externals[os.walk] = lambda interp, p: (g.__setitem__("walked", p), SWalkZ())[1]
+        ctx.externals[shutil.copytree] = lambda interp, *a, **k: g["ev"].append(("shutil.copytree", a, k))
+        return ctx
+
+    def loops(self, case):
+        def body_files(interp, fr, w):
+            g = interp.ctx.ghost
+            wr = g.get("z_writes", [])
+            root, fn, src, dst = interp.lookup(fr, "root"), interp.lookup(fr, "fn"), g["SRC"], g["DST"]
+            ok = len(wr) == 1 and not wr[0][0] and set(wr[0][1]) == {"filename", "arcname"}
+            if ok:
+                f, a = wr[0][1]["filename"], wr[0][1]["arcname"]
+                ok = (isinstance(f, tuple) and f[0] == "join" and len(f) == 3 and f[1] is root and f[2] is fn and isinstance(a, tuple) and a[0] == "join" and len(a) == 4 and a[1] is dst
+                      and a[2] == ("relpath", root, src) and a[3] is fn)
+            interp.ex.oblige(self.oname("loop[files]:every_file_below_the_source_is_written_once_under_destination/relative_directory/name"), z3.BoolVal(bool(ok)), note=repr(wr)[:300])
+        T = lambda interp, fr, i, seq: z3.BoolVal(True)
+        return {"walk": LoopSpec("walk", T, scratch=("root", "dirnames", "filenames", "fn"), heap_frame=lambda interp, fr, w: None),
+                "filenames": LoopSpec("files", T, scratch=("fn",), heap_frame=body_files)}
+
+    def setup(self, interp, case):
+        g = interp.ctx.ghost
+        jobs, path = STok("jobs"), STok("path")
+        g["SRC"], g["DST"] = STok("src"), STok("dst")
+        if self.which == "directory":
+            ct = NativeStub(lambda s_, d_: g["ev"].append(("user-copytree", s_, d_)), "copytree") if case["copytree"] else None
+            return [], {"jobs": jobs, "target": "TARGET", "path": path, "copytree": ct}, {"jobs": jobs, "path": path, "ct": ct}
+        if self.which == "tarfile":
+            class STar(Sym):
+                def sym_getattr(self, ex, name):
+                    if name == "add":
+                        return g.setdefault("tar_add", NativeStub(lambda *a, **k: g["ev"].append(("tar.add", a, k)), "tarfile.add"))
+                    raise Unsupported(f"tarfile.{name}")
+            return [], {"jobs": jobs, "tarfile": STar(), "path": path}, {"jobs": jobs, "path": path}
+
+        class SZip(Sym):
+            def sym_getattr(self, ex, name):
+                if name == "write":
+                    return NativeStub(lambda *a, **k: g.setdefault("z_writes", []).append((a, k)), "zipfile.write")
+                raise Unsupported(f"zipfile.{name}")
+        return [], {"jobs": jobs, "zipfile": SZip(), "path": path}, {"jobs": jobs, "path": path}
+
+    def post(self, interp, case, pre, outcome):
+        ex, g = interp.ex, interp.ctx.ghost
+        ej = g.get("ej")
+        ok = outcome[0] == "return" and isinstance(outcome[1], STok) and ej is not None and ej.get("jobs") is pre["jobs"] and ej.get("path") is pre["path"]
+        ex.oblige(self.oname("ensures:the_jobs_and_the_path_specification_go_to_the_export_driver_and_its_result_is_returned"), z3.BoolVal(bool(ok)), note=repr(ej)[:200])
+        if not ok:
+            return
+        ct = ej.get("copytree")
+        src, dst = g["SRC"], g["DST"]
+        if self.which == "tarfile":
+            ex.oblige(self.oname("ensures:a_job_directory_is_added_to_the_archive_under_its_destination_name"), z3.BoolVal(ct is g.get("tar_add")), note=repr(ct))
+            return
+        g["ev"].clear()
+        interp.call(ct, [src, dst], {})
+        if self.which == "directory":
+            full = ("join", "TARGET", dst)
+            want_copy = ("user-copytree", src, full) if pre["ct"] is not None else ("shutil.copytree", (src, full), {})
+            ok2 = g["ev"] == [("mkdir_p", ("dirname", ("normpath", full))), want_copy]
+            ex.oblige(self.oname("ensures:the_parent_of_target/destination_is_created,_then_the_job_directory_is_copied_there_with_the_chosen_copytree"), z3.BoolVal(bool(ok2)), note=repr(g["ev"])[:300])
+        else:
+            ex.oblige(self.oname("ensures:the_archive_is_filled_by_walking_the_job_directory"), z3.BoolVal(g.get("walked") is src), note=repr(g.get("walked")))
+
+
+CONTRACTS += [PrepareImport(), ImportIntoProject(), ProjectImportFrom(), Exporters("directory"), Exporters("tarfile"), Exporters("zipfile")]
